@@ -123,9 +123,11 @@ def _norm(case):
         raise Violation("normalisation/rows", "loaded %d data points from %d mutations" % (len(data), d + 1), tags)
     arr = np.stack([dp.value[0] for dp in data])  # (d+1, G)
     tot = logsumexp(arr, axis=0)
+    cond = po.bb_conditioning(d, 0, case["major"], case["minor"], case["normal"], case["t"], case["eps"], case["density"], case["precision"], case["G"])
+    lim = 1e-9 * max(1, d) + 4.5e-16 * cond * 4
     worst = float(np.max(np.abs(tot)))
-    if not worst <= 1e-9 * max(1, d):
-        i = int(np.argmax(np.abs(tot)))
+    if not np.all(np.abs(tot) <= lim):
+        i = int(np.argmax(np.abs(tot) - lim))
         raise Violation(
             "normalisation/%s" % case["density"],
             "likelihood summed over all alternate counts 0..%d is exp(%.3e) != 1 at grid point %d (cn %d/%d/%d, t=%s, eps=%s, precision=%s)"
@@ -151,11 +153,14 @@ def _table(case):
     grids = {}
     classes = set(["kind:table", "density:" + density, "clustered" if case["clusters"] else "unclustered"])
     nontriv = False
+    conds = {}
     for m in muts:
         g = []
+        cg = []
         for s in exp_samples:
             r = byk[(m, s)]
             g.append(po.emission_grid(r["ref_counts"], r["alt_counts"], r["major_cn"], r["minor_cn"], r["normal_cn"], r["tumour_content"], r["error_rate"], density, prec, G))
+            cg.append(po.bb_conditioning(r["ref_counts"], r["alt_counts"], r["major_cn"], r["minor_cn"], r["normal_cn"], r["tumour_content"], r["error_rate"], density, prec, G))
             ng = len(po.genotypes(r["major_cn"], r["minor_cn"], r["normal_cn"], r["error_rate"]))
             if r["alt_counts"] > 0 and ng >= 2:
                 nontriv = True
@@ -171,25 +176,26 @@ def _table(case):
             if r["tumour_content"] < 1:
                 classes.add("t<1")
         grids[m] = np.stack(g)
+        conds[m] = np.stack(cg)
     big = any(r["ref_counts"] + r["alt_counts"] > 10 ** 4 for r in rows) or prec > 10 ** 4
     rel = 1e-6 if big else 1e-8
     p = case["outlier_prob"]
     if case["clusters"] is None:
-        expected = [(m, grids[m], 1) for m in muts]
+        expected = [(m, grids[m], 1, conds[m]) for m in muts]
         names = list(muts)
     else:
         cl = case["clusters"]
         cids = sorted(set(cl.values()))
-        expected = [(str(c), sum(grids[m] for m in muts if cl[m] == c), sum(1 for m in muts if cl[m] == c)) for c in cids]
+        expected = [(str(c), sum(grids[m] for m in muts if cl[m] == c), sum(1 for m in muts if cl[m] == c), sum(conds[m] for m in muts if cl[m] == c)) for c in cids]
         names = [str(c) for c in cids]
     if [dp.name for dp in data] != names or [dp.idx for dp in data] != list(range(len(names))):
         raise Violation("names", "data points are named %r (idx %r), expected %r numbered 0..n-1" % ([dp.name for dp in data], [dp.idx for dp in data], names), tags)
-    for dp, (nm, grid, size) in zip(data, expected):
+    for dp, (nm, grid, size, cond) in zip(data, expected):
         v = np.asarray(dp.value)
         if v.shape != grid.shape:
             raise Violation("shape", "grid of %s has shape %r, expected %r" % (nm, v.shape, grid.shape), tags)
         err = np.abs(v - grid)
-        lim = rel * np.maximum(1.0, np.abs(grid)) * max(1, size)
+        lim = rel * np.maximum(1.0, np.abs(grid)) * max(1, size) + 4.5e-16 * 4 * cond
         if not np.all(err <= lim):
             s, i = np.argwhere(~(err <= lim))[0]
             what = "cluster-sum" if case["clusters"] is not None and size > 1 else "emission"
